@@ -1274,6 +1274,25 @@ class FnEmitter:
                 if cop == '*': e = 'MUL_%s(%s, %s.e[%d])' % (ct, e, a, i)
                 else: e = '(%s)(%s %s %s.e[%d])' % (ct, e, cop, a, i)
             s.emit('%s = %s;' % (d, e)); return
+        m = re.match(r'llvm\.x86\.avx2?\.maskload\.(ps|pd|d|q)(\.256)?$', name)
+        if m:
+            ty = rt; ptr, mask = A; mt = T[1]
+            mk = s.mat(mask, mt)
+            ect = em.cty(ty.elem); esz = size_align(ty.elem)[0]
+            for i in range(ty.n):
+                sgn = em.sext_expr('%s.e[%d]' % (mk, i), mt.elem, 64) if isinstance(mt.elem, IntTy) else None
+                cond = '(%s < 0)' % sgn
+                s.emit('%s.e[%d] = %s ? *(%s*)(%s + %d) : (%s)0;' % (d, i, cond, ect, ptr, i * esz, ect))
+            return
+        m = re.match(r'llvm\.x86\.avx2?\.maskstore\.(ps|pd|d|q)(\.256)?$', name)
+        if m:
+            ptr, mask, val = A; ty = T[2]; mt = T[1]
+            mk = s.mat(mask, mt); vv = s.mat(val, ty)
+            ect = em.cty(ty.elem); esz = size_align(ty.elem)[0]
+            for i in range(ty.n):
+                sgn = em.sext_expr('%s.e[%d]' % (mk, i), mt.elem, 64)
+                s.emit('if (%s < 0) *(%s*)(%s + %d) = %s.e[%d];' % (sgn, ect, ptr, i * esz, vv, i))
+            return
         raise Unsupported("intrinsic %s" % name)
 
 
